@@ -609,6 +609,7 @@ impl Scenario for TxHistory {
             let op = jstr(ev, "op").to_string();
             let o = jusize(ev, "obj");
             ctx.seq = seq;
+            ctx.crumb(&op);
             if o >= objs.len() {
                 ctx.skip();
                 continue;
